@@ -350,6 +350,21 @@ theorem sync_edits (es : List Edit) : ∀ {w : World}, Sync w → Sync (edits w 
   | nil => intro w h; exact h
   | cons e rest ih => intro w h; exact ih (sync_edit h e)
 
+/-- every failed save of the history failed after a safe prefix (Lemma-side: `SafePrefix` lives here) -/
+def Harmless : World → List Event → Prop
+  | _, [] => True
+  | w, .edit e :: r => Harmless (edit w e) r
+  | w, .failedSave k :: r => SafePrefix (own w) ((plan w.font .inPlace).take k) ∧ Harmless (failAt .inPlace w k) r
+
+theorem sync_events (evs : List Event) : ∀ {w : World}, Sync w → Harmless w evs → Sync (events w evs) := by
+  induction evs with
+  | nil => intro w h _; exact h
+  | cons ev rest ih =>
+    intro w h hh
+    cases ev with
+    | edit e => exact ih (sync_edit h e) hh
+    | failedSave k => exact ih (sync_failAt h k hh.1) hh.2
+
 /-! ### a failure before the deletions -/
 
 /-- a step other than a deletion and the listing leaves the pending deletions recorded, the listing on disk as it was,
